@@ -2,7 +2,15 @@
 
 package vuego
 
-import "github.com/titpetric/vuego/internal/helpers"
+import (
+	"fmt"
+	"sort"
+	"strings"
+
+	"golang.org/x/net/html"
+
+	"github.com/titpetric/vuego/internal/helpers"
+)
 
 // Thin read-only wrappers around unexported functions, compiled only with
 // `-tags verif` (used by the external verification harness). No existing line
@@ -14,3 +22,41 @@ func VerifSplitPath(expr string) []string { return splitPathImpl(expr) }
 
 // VerifIsTruthy exposes internal/helpers.IsTruthy.
 func VerifIsTruthy(v any) bool { return helpers.IsTruthy(v) }
+
+// VerifTemplateVue returns the engine behind a Template made by New/NewFS.
+func VerifTemplateVue(t Template) *Vue {
+	if tt, ok := t.(*template); ok {
+		return tt.vue
+	}
+	return nil
+}
+
+// VerifCacheDump serialises the cached parsed templates of v (file name, front-matter, DOM with all
+// attributes) so that a harness can compare the cache before and after renders.
+func VerifCacheDump(v *Vue) string {
+	v.templateMu.RLock()
+	defer v.templateMu.RUnlock()
+	names := make([]string, 0, len(v.templateCache))
+	for n := range v.templateCache {
+		names = append(names, n)
+	}
+	sort.Strings(names)
+	var sb strings.Builder
+	for _, n := range names {
+		e := v.templateCache[n]
+		keys := make([]string, 0, len(e.frontMatter))
+		for k := range e.frontMatter {
+			keys = append(keys, k)
+		}
+		sort.Strings(keys)
+		sb.WriteString("== " + n + "\n")
+		for _, k := range keys {
+			sb.WriteString(k + "=" + fmt.Sprint(e.frontMatter[k]) + "\n")
+		}
+		for _, node := range e.dom {
+			_ = html.Render(&sb, node)
+		}
+		sb.WriteString("\n")
+	}
+	return sb.String()
+}
